@@ -33,6 +33,8 @@ ASSUMPTIONS = [
     "templates themselves are not modelled",
     "theorems quantify over schedules with positive bounds and operands with positive static shape "
     "(dynamic / zero-sized dims are the recorded finding class nonpositive_shape_dim)",
+    "the theorems are about the repaired fill-up (/repo fix: set-memory-layout covers ...); the behaviour before the "
+    "repair is kept as assign_layout_old with its refutation",
 ]
 
 _CTX = None
@@ -233,32 +235,11 @@ def coq_result(res):
     return "(Some " + coqlist(coq_layout(ts, off) for ts, off in res) + ")"
 
 
-# ------------------------------------------------------------------ the input-side predicate (same as Coq schedule_covers)
-def first_nz(col):
-    for i, x in enumerate(col):
-        if x != 0:
-            return i
-    return None
-
-
-def py_schedule_covers(bounds, rows, shape):
-    n = len(bounds)
-    for d, sz in enumerate(shape):
-        it = 1
-        for j in range(n):
-            if first_nz([r[j] for r in rows]) == d:
-                it *= bounds[j]
-        if not (0 < sz <= it):
-            return False
-    return True
-
-
+# ------------------------------------------------------------------ finding classes
 def classify(bounds, o):
     shape = shape_ints(o["shape"])
     if any(s <= 0 for s in shape):
         return "nonpositive_shape_dim"
-    if not py_schedule_covers(bounds, o["rows"], shape):
-        return "schedule_not_covering"
     return None
 
 
@@ -266,7 +247,7 @@ def classify(bounds, o):
 def correspondence(ctx):
     rng = ctx.rng
     n = ctx.n(240, 6000)
-    cases, meta, cov_cases = [], [], []
+    cases, meta = [], []
     for i in range(n):
         acc, bounds, ops, tiled = gen_case(rng, edge=(i % 25 == 24))
         try:
@@ -277,10 +258,7 @@ def correspondence(ctx):
         spatial = ACCS[acc][1]
         cases.append(f"({boollit(tiled)}, {zlit(spatial)}, {zlist(bounds)}, {coqlist(coq_operand(o) for o in ops)}, {coq_result(res)})")
         meta.append({"acc": acc, "tiled": tiled, "bounds": bounds, "ops": ops, "impl": res})
-        cov_cases.append([])
         for k, o in enumerate(ops):
-            sh = shape_ints(o["shape"])
-            cov_cases[-1].append(f"({zlist(bounds)}, {vlib.zlistlist(o['rows'])}, {zlist(sh)}, {boollit(py_schedule_covers(bounds, o['rows'], sh))})")
             ctx.count({"acc": acc, "tiled": tiled, "bounds": bounds, "operand": o, "layout": None if res is None else res[k]},
                       nontrivial(o), f"{acc}{tiled}{bounds}{o}", f"{acc}:{'tiled' if tiled else 'flat'}")
     shards = []
@@ -290,20 +268,16 @@ def correspondence(ctx):
                 "Definition res_eqb (a b : option (list layout)) : bool := match a, b with Some x, Some y => list_eqb layout_eqb x y | None, None => true | _, _ => false end.",
                 f"Definition cases : list (bool * Z * list Z * list operand * option (list layout)) := {coqlist(cases[a:a + per])}.",
                 "Eval vm_compute in failing (fun c => match c with (t, sp, b, ops, r) => res_eqb (rewrite_schedule t sp b ops) r end) cases.",
-                f"Definition ccases : list (list Z * list (list Z) * list Z * bool) := {coqlist(x for g in cov_cases[a:a + per] for x in g)}.",
-                "Eval vm_compute in failing (fun c => match c with (b, rows, sh, r) => Bool.eqb (schedule_covers (mkSched b rows) sh) r end) ccases."]
+                ]
         shards.append("\n".join(text) + "\n")
     outs = vlib.coq_eval_many("c09_", shards, timeout=600)
     dis = []
     for si, (ok, out) in enumerate(outs):
         lists = vlib.parse_all_eval_lists(out)
-        if not ok or len(lists) != 2:
+        if not ok or len(lists) != 1:
             return [{"name": "cases-file", "detail": out[-2000:]}]
         for idx in lists[0]:
             dis.append({"name": "L1:set-memory-layout", "case": meta[si * per + idx], "coq_case": cases[si * per + idx][:800]})
-        for idx in lists[1]:
-            flat = [x for g in cov_cases[si * per:(si + 1) * per] for x in g]
-            dis.append({"name": "L1:schedule_covers-predicate", "coq_case": flat[idx][:800]})
     return dis
 
 
